@@ -109,6 +109,20 @@ example : (run Proc.init [.newEnv ⟨default, 0, ["if"], ["upcase"]⟩,
        some ⟨default, 1, some ⟨default, 2, [], []⟩⟩, none, some ⟨default, 0, some ⟨default, 0, [], ["upcase"]⟩⟩] := by
   decide +kernel
 
+/-- **`liquid.Template()` never hands out another configuration's environment**: for every sequence of
+calls with any argument sets, interleaved in any order and with more than ten live configurations (so
+with evictions from the 10-entry cache), the k-th call gets an environment built from exactly the k-th
+call's arguments. -/
+theorem implicit_env_isolation (ks : List ImplicitCfg) : implicitCalls ks = ks := by
+  have := memo_transparent (fun (a b : ImplicitCfg) => a == b) (fun k => k)
+    (by intro a b h; simpa using h) 10 ks
+  simpa [implicitCalls] using this
+
+/-- … and the cache stays within its ten entries -/
+theorem implicit_env_bounded (ks : List ImplicitCfg) :
+    (runCalls (fun (a b : ImplicitCfg) => a == b) (fun k => k) (empty 10) ks).1.entries.length ≤ 10 :=
+  memo_bounded _ _ 10 ks
+
 /-! ## the hypotheses hold of this tree (regenerated from the source on every run) -/
 section tables
 open LiquidVerif.Gen.C11
